@@ -62,7 +62,14 @@ def parseMut (root : Str) (t : Str) : Option Mut :=
     else none
   | _ => none
 
-def parseCtx (s : Str) : Option Ctx :=
+/-- `lay+<wrapper>+<layout>+<context>`: the context written with other separators inside a compound
+command of the same shell — the model does not look at the wrapper -/
+def stripLayout (s : Str) : Str :=
+  match splitOnChar '+' s with
+  | [l, _, _, base] => if l = "lay".toList then base else s
+  | _ => s
+
+def parseCtx0 (s : Str) : Option Ctx :=
   if s = "paren".toList then some .paren else if s = "cmdsub".toList then some .cmdsub
   else if s = "backq".toList then some .backq else if s = "pipe".toList then some .pipe
   else if s = "stages".toList then some .stages else if s = "bg".toList then some .bg
@@ -79,6 +86,8 @@ def parseCtx (s : Str) : Option Ctx :=
         | _, _ => none
       else none
     | _ => none
+
+def parseCtx (s : Str) : Option Ctx := parseCtx0 (stripLayout s)
 
 def textLines (ls : List Str) : Str := ls.flatMap (fun l => l ++ ['\n'])
 
